@@ -142,12 +142,17 @@ inline Block Acquire(Kind k, bool useAlloc, Fails& F) {
     b.p = T(k).alloc();
     if (!b.p) F.add("ptr", {{"fn", std::string("manifold_alloc_") + T(k).name}, {"why", "returned null"}});
 #if VF_ASAN
-    else if (__sanitizer_get_allocated_size(b.p) < T(k).cppSize)
+    else if (__sanitizer_get_allocated_size(b.p) < T(k).cppSize) {
       F.add("size", {{"fn", std::string("manifold_alloc_") + T(k).name},
                      {"allocated", __sanitizer_get_allocated_size(b.p)},
                      {"sizeof_cpp_type", T(k).cppSize}});
+      // reported; do not construct into the short block (that would only stop the process): carry on in caller memory
+      b.fromAlloc = false;
+      b.size = T(k).cppSize;
+    }
 #endif
-  } else {
+  }
+  if (!b.fromAlloc) {
     unsigned char* p = (unsigned char*)malloc(b.size + kGuard);
     memset(p, 0xEE, b.size);
     for (size_t i = 0; i < kGuard; i++) p[b.size + i] = GuardByte(i);
